@@ -72,6 +72,19 @@ func dirOfPkg(p *types.Package) string {
 	return path
 }
 
+// structPkgOK: record types are emitted for structs of the repository and, when the spec asks for
+// full imports, of third-party modules it uses (miekg/dns: dns.DNSKEY, dns.RR_Header, dns.Question …);
+// never for the standard library (sync.Mutex, atomic.Int64, netip.Addr stay outside the subset).
+func structPkgOK(p *types.Package) bool {
+	if inRepo(p) {
+		return true
+	}
+	if p == nil || !fullImports {
+		return false
+	}
+	return strings.Contains(strings.SplitN(p.Path(), "/", 2)[0], ".")
+}
+
 // inRepo reports whether p is a package of the repository being translated.
 func inRepo(p *types.Package) bool {
 	if p == nil {
@@ -194,7 +207,7 @@ func kindOfType(ty types.Type) (tkind, bool) {
 		// *T for a struct T of the repository is read as the value it points to (assignment
 		// through it is refused, a comparison with nil too)
 		if n := namedOf(p); n != nil {
-			if _, isStruct := n.Underlying().(*types.Struct); isStruct && !isTimeTime(n) && inRepo(n.Obj().Pkg()) {
+			if _, isStruct := n.Underlying().(*types.Struct); isStruct && !isTimeTime(n) && structPkgOK(n.Obj().Pkg()) {
 				return kindOfType(p.Elem())
 			}
 		}
@@ -212,7 +225,7 @@ func kindOfType(ty types.Type) (tkind, bool) {
 			return tkind{k: "Z", w: 64}, true
 		}
 		if _, ok := n.Underlying().(*types.Struct); ok {
-			if !inRepo(n.Obj().Pkg()) {
+			if !structPkgOK(n.Obj().Pkg()) {
 				return tkind{}, false // sync.Mutex, atomic.Int64, netip.Addr, ...: outside the subset
 			}
 			return tkind{k: "struct", name: structTag(n)}, true
@@ -666,6 +679,13 @@ func (t *ftr) expr(e ast.Expr) string {
 		}
 		t.bad(e, "identifier %s is not a local variable or constant", e.Name)
 	case *ast.UnaryExpr:
+		if e.Op == token.AND {
+			// &x for a struct value: pointers to repository structs are read as values
+			if k := t.kindOf(e.X); k.k == "struct" {
+				return t.expr(e.X)
+			}
+			t.bad(e, "address-of")
+		}
 		k := t.kindOf(e)
 		x := t.expr(e.X)
 		switch e.Op {
@@ -721,7 +741,7 @@ func (t *ftr) expr(e ast.Expr) string {
 	case *ast.SelectorExpr:
 		// struct field
 		if sel := namedOf(t.typeOf(e.X)); sel != nil {
-			if _, ok := sel.Underlying().(*types.Struct); ok && inRepo(sel.Obj().Pkg()) {
+			if _, ok := sel.Underlying().(*types.Struct); ok && structPkgOK(sel.Obj().Pkg()) {
 				if _, isField := t.pi.info.Uses[e.Sel].(*types.Var); isField {
 					t.ensureStruct(sel, e)
 					t.kindOf(e)
@@ -785,7 +805,7 @@ func (t *ftr) composite(e *ast.CompositeLit) string {
 		t.bad(e, "composite literal of unsupported type")
 	}
 	st, ok := n.Underlying().(*types.Struct)
-	if !ok || !inRepo(n.Obj().Pkg()) {
+	if !ok || !structPkgOK(n.Obj().Pkg()) {
 		t.bad(e, "composite literal of a type outside the repository")
 	}
 	t.ensureStruct(n, e)
@@ -858,11 +878,14 @@ func (t *ftr) binary(e *ast.BinaryExpr) string {
 			}
 			ok := t.kindOf(o)
 			var isnil string
-			switch ok.k {
-			case "err":
+			_, isPtr := types.Unalias(t.typeOf(o)).(*types.Pointer)
+			switch {
+			case ok.k == "err":
 				isnil = "(negb " + t.expr(o) + ")"
-			case "list":
+			case ok.k == "list":
 				isnil = "(Z.eqb (go_len " + t.expr(o) + ") (0)%Z)"
+			case ok.k == "struct" && isPtr && assumeNonNil:
+				isnil = "false"
 			default:
 				t.bad(e, "comparison of a %s value with nil", ok.k)
 			}
@@ -1337,7 +1360,7 @@ func (t *ftr) lvalUpdate(lhs ast.Expr, val string) string {
 	case *ast.SelectorExpr:
 		n := namedOf(t.typeOf(l.X))
 		if n != nil {
-			if st, ok := n.Underlying().(*types.Struct); ok && inRepo(n.Obj().Pkg()) {
+			if st, ok := n.Underlying().(*types.Struct); ok && structPkgOK(n.Obj().Pkg()) {
 				t.ensureStruct(n, lhs)
 				x := t.expr(l.X)
 				var parts []string
@@ -2010,6 +2033,10 @@ func needsFuel(pi *pkgInfo, dir, fn string) bool {
 
 var allowParamMutation bool
 
+// assumeNonNil: `p == nil` on a pointer to a struct reads false (the translation describes the
+// function on non-nil arguments; item flag "nonnil_pointers").
+var assumeNonNil bool
+
 // ensureFunc translates dir.fn if not done yet and returns its Coq name.
 func ensureFunc(pi *pkgInfo, dir, fn string, at ast.Node) string {
 	key := dir + "." + fn
@@ -2157,6 +2184,7 @@ func ensureFunc(pi *pkgInfo, dir, fn string, at ast.Node) string {
 func doPureFunc(it Item) {
 	rootDir = it.Pkg
 	allowParamMutation = it.AllowParamMutation
+	assumeNonNil = it.NonNilPointers
 	pi := loadPkg(it.Pkg)
 	name := ensureFunc(pi, it.Pkg, it.Func, nil)
 	if it.As != "" && it.As != name {
@@ -2174,6 +2202,7 @@ func doPureFunc(it Item) {
 // result when the loop contains a return statement (unit otherwise).
 func doLoopFunc(it Item) {
 	rootDir = it.Pkg
+	assumeNonNil = it.NonNilPointers
 	pi := loadPkg(it.Pkg)
 	fd := pi.findFunc(it.Func)
 	if fd == nil || fd.Body == nil {
